@@ -38,6 +38,8 @@ type c33obs struct {
 	peerMismatch                   int
 	lateOK                         int
 	readAt                         time.Duration
+	post                           []byte // read from the reader's end after every thread has finished
+	postErr                        error
 }
 
 func c33payload(i, n int) []byte {
@@ -126,6 +128,17 @@ func c33stream(sizes []int, rbuf int, depth int, closerThread bool) func() {
 		if _, err := w.Write([]byte("late")); err == nil {
 			o.lateOK++
 		}
+		// Whatever was acknowledged -- also a Write that was in flight while Close ran -- has been queued, and
+		// queued bytes stay readable after Close: draining the reader's end now must yield exactly the rest.
+		buf := make([]byte, 64)
+		for i := 0; i < 16; i++ {
+			n, err := r.Read(buf)
+			o.post = append(o.post, buf[:n]...)
+			if err != nil {
+				o.postErr = err
+				break
+			}
+		}
 	}
 }
 
@@ -151,6 +164,12 @@ func c33streamCheck(x *mcrt.Exec) (string, string, string) {
 	}
 	if o.okAfter > 0 || o.lateOK > 0 {
 		return cls, "pipe-write-after-close-succeeds", "a Write that started after Close returned succeeded"
+	}
+	if got := append(append([]byte{}, o.read...), o.post...); !bytes.Equal(got, all) {
+		return cls, "pipe-acked-write-never-readable", fmt.Sprintf("acknowledged writes %q, but the reader's end yielded %q before EOF and %q when drained after every thread had finished (%v)", all, o.read, o.post, o.postErr)
+	}
+	if o.postErr != io.EOF {
+		return cls, "pipe-reader-no-eof", fmt.Sprintf("draining the closed pipe ended with %v instead of io.EOF", o.postErr)
 	}
 	return cls, "", ""
 }
@@ -205,6 +224,86 @@ func c33deadlineCheck(deadline time.Duration) func(x *mcrt.Exec) (string, string
 			}
 		} else if string(o.read) != "x" {
 			return cls, "pipe-read-not-prefix-of-writes", fmt.Sprintf("read %q", o.read)
+		}
+		return cls, "", ""
+	}
+}
+
+// write deadline: a writer with a write deadline fills the queue; the reader starts reading before or after it.
+func c33wdeadline(readDelay, deadline time.Duration, depth int) func() {
+	return func() {
+		mcrt.SetParam("fasthttputil:lit:4", depth)
+		o := &c33obs{}
+		mcrt.SetUserData(o)
+		pc := NewPipeConns()
+		w, r := pc.Conn1(), pc.Conn2()
+		var wg msync.WaitGroup
+		wg.Add(2)
+		start := mtime.Now()
+		mcrt.GoNamed("writer", func() {
+			defer wg.Done()
+			w.SetWriteDeadline(start.Add(deadline))
+			for i := 0; i < depth+2; i++ {
+				p := c33payload(i, 2)
+				k, err := w.Write(p)
+				if at := mcrt.BlockedUntil(); at > o.readAt {
+					o.readAt = at // latest moment the writer was found blocked
+				}
+				switch {
+				case err == nil && k == len(p):
+					o.written = append(o.written, p)
+				case err == nil:
+					o.notes = append(o.notes, fmt.Sprintf("short write %d of %d without error", k, len(p)))
+				default:
+					if ne, ok := err.(interface{ Timeout() bool }); !ok || !ne.Timeout() {
+						o.notes = append(o.notes, fmt.Sprintf("Write failed with %v, want a timeout error", err))
+					}
+					if k != 0 {
+						o.notes = append(o.notes, fmt.Sprintf("Write reports %d bytes together with %v", k, err))
+					}
+				}
+			}
+		})
+		mcrt.GoNamed("reader", func() {
+			defer wg.Done()
+			mtime.Sleep(readDelay)
+			buf := make([]byte, 2)
+			n, _ := r.Read(buf)
+			o.read = append(o.read, buf[:n]...)
+		})
+		wg.Wait()
+		pc.Close()
+		buf := make([]byte, 64)
+		for i := 0; i < 16; i++ {
+			n, err := r.Read(buf)
+			o.post = append(o.post, buf[:n]...)
+			if err != nil {
+				o.postErr = err
+				break
+			}
+		}
+	}
+}
+
+func c33wdeadlineCheck(deadline time.Duration) func(x *mcrt.Exec) (string, string, string) {
+	return func(x *mcrt.Exec) (string, string, string) {
+		o, _ := x.UserData.(*c33obs)
+		if o == nil || x.Out.Deadlock || x.Out.Panic != "" || x.Out.Horizon || x.Out.Fatal != "" {
+			return "", "", ""
+		}
+		all := bytes.Join(o.written, nil)
+		cls := fmt.Sprintf("acked=%d blocked-until=%v", len(o.written), o.readAt)
+		if len(o.notes) > 0 {
+			return cls, "pipe-anomaly", o.notes[0]
+		}
+		if o.readAt > deadline {
+			return cls, "pipe-write-past-deadline", fmt.Sprintf("Write was still blocked at %v, deadline %v", o.readAt, deadline)
+		}
+		if got := append(append([]byte{}, o.read...), o.post...); !bytes.Equal(got, all) {
+			return cls, "pipe-acked-write-never-readable", fmt.Sprintf("acknowledged writes %q (the others reported a timeout), but the reader's end yielded %q and then %q when drained after Close (%v)", all, o.read, o.post, o.postErr)
+		}
+		if o.postErr != io.EOF {
+			return cls, "pipe-reader-no-eof", fmt.Sprintf("draining the closed pipe ended with %v instead of io.EOF", o.postErr)
 		}
 		return cls, "", ""
 	}
@@ -386,7 +485,7 @@ func TestVerif_C33(t *testing.T) {
 	defer r.End()
 	r.Rule("closed systems of 2-4 threads over the real PipeConns / InmemoryListener code (sources rewritten by mcgen so that every channel, select, mutex and timer operation is a scheduling point); " +
 		"all schedules, select-case choices and timer-first orders up to the deviation bound are executed; oracle per execution: reads are a prefix of acknowledged writes, EOF after Close, " +
-		"bytes acknowledged before Close are delivered, writes after Close fail, deadlines met on the virtual clock, each successful Dial paired with exactly one Accept; non-trivial: executions with >=1 deviation from the default schedule")
+		"bytes acknowledged before Close are delivered before EOF, every acknowledged write (also one in flight during Close) is read before EOF or by draining the closed pipe afterwards, writes after Close fail, read and write deadlines met on the virtual clock (a timed-out Write reports 0 bytes and a timeout error and its bytes never appear), each successful Dial paired with exactly one Accept; non-trivial: executions with >=1 deviation from the default schedule")
 	r.Assume("mcrt shim semantics for chan/select/mutex/timer (litmus-tested)", "pipe depth 4 shrunk to 1-2 through mcrt.Param (the code uses it only as a channel capacity)", "unsynchronised plain accesses are C37's subject")
 	b := vrt.Pick(r, 2, 3)
 	var scs []mcx.Scenario
@@ -404,6 +503,11 @@ func TestVerif_C33(t *testing.T) {
 	add("stream/depth4/rbuf3/w1x6", b, false, c33stream([]int{1, 1, 1, 1, 1, 1}, 3, 4, false), c33streamCheck)
 	for _, wd := range []time.Duration{0, time.Second, 3 * time.Second} {
 		add(fmt.Sprintf("deadline/write@%v/deadline2s", wd), b, true, c33deadline(wd, 2*time.Second), c33deadlineCheck(2*time.Second))
+	}
+	for _, depth := range []int{1, 2} {
+		for _, rd := range []time.Duration{0, time.Second, 3 * time.Second} {
+			add(fmt.Sprintf("wdeadline/depth%d/read@%v/deadline2s", depth, rd), b, true, c33wdeadline(rd, 2*time.Second, depth), c33wdeadlineCheck(2*time.Second))
+		}
 	}
 	add("listener/2dial-2accept", b, false, c33listener(2, 2, false), c33listenerCheck(2, 2, false))
 	add("listener/2dial-1accept-closer", b, false, c33listener(2, 1, true), c33listenerCheck(2, 1, true))
